@@ -31,7 +31,7 @@ CONSTANTS
   ZeroLenBitmaps = {zero}
   Mode = "{mode}"
   PrintScn = TRUE
-INVARIANTS TypeOK NoDebugAssert LevelsMatchScheme ConcatIsConcat RowTranslation RoundTrip NoLostNulls Scenario
+INVARIANTS TypeOK NoDebugAssert LevelsMatchScheme ConcatIsConcat RowTranslation RoundTrip NoLostNulls TileIsRepeat Scenario
 CHECK_DEADLOCK FALSE
 """
 TRACE_CFG = """SPECIFICATION TraceSpec
@@ -49,6 +49,9 @@ QUICK = [
     ("pair-allvalid", dict(depths="{2}", rows=2, total=9, garbage=0, validity="none", zero="FALSE", mode="pair"), None),
     ("pair-small", dict(depths="{1,2}", rows=1, total=5, garbage=0, validity="any", zero="FALSE", mode="pair"), None),
     ("pair-sim", dict(depths="{1,2,3}", rows=3, total=12, garbage=1, validity="any", zero="FALSE", mode="pair"), "num=1500"),
+    # explicit columns RepDefOps!DirectedCols (rows of 5..7 items): also written tiled to files of several
+    # mini-block chunks and read back systematically (scan, long range, strided takes, short ranges)
+    ("directed", dict(depths="{0}", rows=1, total=1, garbage=1, validity="any", zero="FALSE", mode="directed"), None),
 ]
 THOROUGH = [
     ("single-d012", dict(depths="{0,1,2}", rows=6, total=6, garbage=1, validity="any", zero="TRUE", mode="single"), None),
@@ -58,6 +61,9 @@ THOROUGH = [
     # (the simulator computes all successors of a Fill state before it picks one: keep the slot budget moderate)
     ("pair-sim", dict(depths="{1,2,3}", rows=3, total=12, garbage=1, validity="any", zero="FALSE", mode="pair"), "num=5000"),
     ("single-sim", dict(depths="{1,2,3}", rows=5, total=10, garbage=1, validity="any", zero="TRUE", mode="single"), "num=4000"),
+    # explicit columns RepDefOps!DirectedCols (rows of 5..7 items): also written tiled to files of several
+    # mini-block chunks and read back systematically (scan, long range, strided takes, short ranges)
+    ("directed", dict(depths="{0}", rows=1, total=1, garbage=1, validity="any", zero="FALSE", mode="directed"), None),
 ]
 
 
@@ -115,6 +121,8 @@ def run(prop, tier, replay):
         if not sim:
             nmax = max(int(d) for d in par["depths"].strip("{}").split(",")) + 1   # layers incl. the leaf
             full_path = 3 * nmax + 5 if par["mode"] == "single" else 4 * nmax + 6
+            if par["mode"] == "directed":
+                full_path = 11    # init, pick, start, serialize x 4, unravel x 4 (three layers)
             if r.get("depth") != full_path:
                 raise vlib.ToolError(f"vacuous model run {name}: state graph depth {r.get('depth')} != {full_path} "
                                      f"(pick, fill x layers, start, serialize x layers+1, unravel x layers+1)")
@@ -150,22 +158,32 @@ def run(prop, tier, replay):
     file_scns = singles[vlib.seed() % file_stride::file_stride]
     tiled_every = 150 if tier == "quick" else 40
     tiled = singles[vlib.seed() % tiled_every::tiled_every]
-    jobs = []   # (label, mode, scenario lines)
+    directed = [json.dumps(s) for name, s in scenarios if name == "directed"]
+    if len(directed) < 5:
+        raise vlib.ToolError(f"only {len(directed)} directed columns were generated")
+    jobs = []   # (label, mode, scenario lines, extra driver arguments)
+    # tiled files of several mini-block chunks / a long full-zip page, one page, systematic reads
+    # (a) leaf value = slot number inside a copy: few distinct values, dictionary + mini-block chunks
+    # (b) leaf values unique over the file, full-zip requested (the writer still chose mini-block chunks for
+    #     these narrow values when this was measured -- both go through DecodeMiniBlockTask::map_range)
+    jobs.append(("sweep-dict", "tiled", directed, ["--sweep", 1, "--fullzip", 0, "--two-batches", 0, "--tiny-pages", 0]))
+    jobs.append(("sweep-unique", "tiled", directed, ["--sweep", 1, "--unique", 1, "--fullzip", 1, "--two-batches", 0,
+                                                    "--tiny-pages", 0]))
     for i, ch in enumerate(_chunks(lines, 10 if tier == "quick" else 24)):
-        jobs.append((f"api{i}", "api", ch))
+        jobs.append((f"api{i}", "api", ch, []))
     for i, ch in enumerate(_chunks(file_scns, 6 if tier == "quick" else 16)):
-        jobs.append((f"file{i}", "file", ch))
+        jobs.append((f"file{i}", "file", ch, []))
     for i, ch in enumerate(_chunks(tiled, 3 if tier == "quick" else 8)):
-        jobs.append((f"tiled{i}", "tiled", ch))
+        jobs.append((f"tiled{i}", "tiled", ch, []))
 
     def drive_and_validate(job):
-        label, mode, ch = job
+        label, mode, ch, extra = job
         inp = os.path.join(wd, f"{label}.scn.ndjson")
         tf = os.path.join(wd, f"{label}.trace.ndjson")
         with open(inp, "w") as f:
             f.write("\n".join(ch) + "\n")
         t1 = time.time()
-        vlib.harness_run(binary, ["--in", inp, "--out", tf, "--mode", mode, "--seed", vlib.seed()], timeout=3000)
+        vlib.harness_run(binary, ["--in", inp, "--out", tf, "--mode", mode, "--seed", vlib.seed()] + extra, timeout=3000)
         t2 = time.time()
         v = vlib.tlc_trace(f"{prop}-{label}", "Trace_RepDef", TRACE_CFG, tf, timeout=3000, xmx="4g")
         return label, mode, ch, tf, v, round(t2 - t1, 1), round(time.time() - t2, 1)
@@ -216,7 +234,10 @@ def run(prop, tier, replay):
             ev = json.loads(tl[pos - 1])
             short = {k: ev[k] for k in ev if k not in ("cw", "slice", "reads")}
             if "reads" in ev:
-                short["reads"] = [r for r in ev["reads"] if r["error"] or len(r["got"]) != len(r["rows"])][:2] or ev["reads"][:2]
+                picked = [r for r in ev["reads"] if r["error"] or len(r["got"]) != len(r["rows"])][:2] or ev["reads"][:2]
+                short["reads"] = [{"kind": r["kind"], "error": r["error"], "rows_requested": len(r["rows"]),
+                                   "rows_returned": len(r["got"]), "rows": r["rows"][:20], "got": r["got"][:20]}
+                                  for r in picked]
             if check == "input":
                 raise vlib.ToolError(f"{label}: malformed scenario echoed by the driver: {short}")
             out.report({"check": check, "class": cls},
@@ -228,7 +249,8 @@ def run(prop, tier, replay):
             first = json.loads(every[(2 * len(every)) // 3])
             first = {k: first[k] for k in first if k not in ("cw", "slice")}
             if "reads" in first:
-                first["reads"] = first["reads"][:2]
+                first["reads"] = [{**r, "rows": r["rows"][:12], "got": r["got"][:12], "rows_requested": len(r["rows"])}
+                                  for r in first["reads"][:2]]
             samples.append({"job": label, "event": first})
     for need in ("api", "file", "one", "concat", "pages", "reads"):
         if totals.get(need, 0) == 0:
@@ -251,7 +273,7 @@ def run(prop, tier, replay):
         "model_runs": mc_info, "scenarios_by_run": by_run, "event_counts": totals,
         "failure_classes": [{"check": k[0], "class": k[1], "events": n} for k, n in sorted(classes.items())],
         "file_mode_skipped_fsl_shapes": skipped_f, "file_mode_scenarios": len(file_scns), "file_mode_stride": file_stride,
-        "tiled_scenarios": len(tiled),
+        "tiled_scenarios": len(tiled), "directed_tiled_files": 2 * len(directed),
         "harness_build_s": build_s, "harness_s_sum": round(harness_s, 1), "validate_s_sum": round(validate_s, 1),
         "model_check_wall_s": round(t_mc, 1),
         "not_covered": "list layers combined with structural fixed-size-list layers (decimate is todo!()); zero-row pages; "
